@@ -36,19 +36,66 @@ Definition cres_ok (s : state) (d : key) (c : cres) : Prop :=
   end.
 
 (* the Resolve call whose results are in tslots, and how many calls have been accumulated in tacc *)
-Definition cur_group (w : world) (s : state) (id : nat) : option (list key) :=
-  match tpc (thr s id) with
-  | PEdges g _ | PStart g _ _ | PCall g _ | PJoinRel g | PJoin g | PJoinAcq g => nth_error (groups w s id) g
-  | PRelease _ =>
-      match tkey (thr s id) with None => nth_error (groups w s id) 0 | Some _ => None end
+Definition cg (p : pc) (k : option key) (gs : list (list key)) : option (list key) :=
+  match p with
+  | PEdges g _ | PStart g _ _ | PCall g _ | PJoinRel g | PJoin g | PJoinAcq g => nth_error gs g
+  | PBody (S g) => nth_error gs g
+  | PRelease _ => match k with None => nth_error gs 0 | Some _ => None end
   | _ => None
   end.
-Definition acc_index (w : world) (s : state) (id : nat) : option nat :=
-  match tpc (thr s id) with
+Definition ai (p : pc) (gs : list (list key)) : option nat :=
+  match p with
   | PEdges g _ | PStart g _ _ | PCall g _ | PJoinRel g | PJoin g | PJoinAcq g | PBody g => Some g
-  | PRelease _ | PClose _ => Some (length (groups w s id))
+  | PRelease _ | PClose _ => Some (length gs)
   | _ => None
   end.
+Definition cur_group (w : world) (s : state) (id : nat) : option (list key) :=
+  cg (tpc (thr s id)) (tkey (thr s id)) (groups w s id).
+Definition acc_index (w : world) (s : state) (id : nat) : option nat :=
+  ai (tpc (thr s id)) (groups w s id).
+Definition acc0pc (p : pc) : bool := rpc p || match p with PAcquire => true | _ => false end.
+
+Lemma firstn_S_nth {A} (l : list A) i d : nth_error l i = Some d -> firstn (S i) l = firstn i l ++ [d].
+Proof.
+  revert i. induction l as [|a l IH]; intros [|i] H; cbn in *; try discriminate.
+  - inversion H. reflexivity.
+  - rewrite (IH i H). reflexivity.
+Qed.
+Lemma Forall2_nth {A B} (P : A -> B -> Prop) la lb : length la = length lb ->
+  (forall i a b, nth_error la i = Some a -> nth_error lb i = Some b -> P a b) -> Forall2 P la lb.
+Proof.
+  revert lb. induction la as [|a la IH]; intros [|b lb] Hl H; cbn in Hl; try discriminate; constructor.
+  - apply (H 0); reflexivity.
+  - apply IH; [lia|]. intros i a' b' Ha Hb. apply (H (S i)); assumption.
+Qed.
+
+Definition filled_from (p : pc) (i : nat) : Prop :=
+  match p with
+  | PStart _ j false => j <= i
+  | PCall _ false => 1 <= i
+  | PJoinAcq _ => True
+  | _ => False
+  end.
+
+Lemma Forall2_imp {A B} (P Q : A -> B -> Prop) la lb :
+  (forall a b, P a b -> Q a b) -> Forall2 P la lb -> Forall2 Q la lb.
+Proof. intros H. induction 1; constructor; auto. Qed.
+
+Lemma acc_extend s gs g grp acc (slots : list (option dres)) run :
+  nth_error gs g = Some grp -> Forall2 (cres_ok s) (concat (firstn g gs)) acc ->
+  length slots = length grp ->
+  (forall i, i < length slots -> nth_error slots i <> Some None) ->
+  (forall i d r, nth_error grp i = Some d -> nth_error slots i = Some (Some r) -> res_ok s run d r) ->
+  Forall2 (cres_ok s) (concat (firstn (S g) gs)) (acc ++ map to_cres slots).
+Proof.
+  intros Hg Ha Hl Hf Hr. rewrite (firstn_S_nth _ _ _ Hg), concat_app. cbn [concat]. rewrite app_nil_r.
+  apply Forall2_app; [assumption|]. apply Forall2_nth; [rewrite map_length; lia|].
+  intros i d c Hd Hc. rewrite nth_error_map in Hc.
+  destruct (nth_error slots i) as [[r|]|] eqn:Es; cbn in Hc; try discriminate.
+  - inversion Hc; subst c. specialize (Hr i d r Hd Es). destruct r as [v ch| |]; cbn in *; auto.
+    destruct Hr as (o & H1 & H2 & H3 & _). exists o. auto.
+  - exfalso. apply (Hf i); [apply nth_error_Some; congruence|assumption].
+Qed.
 
 Section Inv2.
 Variable w : world.
@@ -64,6 +111,11 @@ Record thread2 (s : state) (id : nat) : Prop := {
   u_acc : forall g, acc_index w s id = Some g ->
           Forall2 (cres_ok s) (concat (firstn g (groups w s id))) (tacc (thr s id));
   u_canc : tcanc (thr s id) = false;
+  u_acc0 : acc0pc (tpc (thr s id)) = true -> tacc (thr s id) = [];
+  u_cycr : forall o, tpc (thr s id) = RCycR o -> ocyc (objs s o) <> None \/ oclosed (objs s o) = true;
+  u_load2 : forall d, tkey (thr s id) = Some d -> tpc (thr s id) = RLoad2 -> exists o, tmap s d = TRes o;
+  u_filled : forall i, i < length (tslots (thr s id)) -> filled_from (tpc (thr s id)) i ->
+             nth_error (tslots (thr s id)) i <> Some None;
   u_bodyg : forall g, tpc (thr s id) = PBody g -> g <= length (groups w s id)
 }.
 
@@ -115,4 +167,414 @@ Proof.
   all: try (right; right; right; left; do 2 eexists; cbn; repeat split; reflexivity).
   all: try (right; right; right; right; eexists; cbn; repeat split; try reflexivity; eassumption).
 Qed.
+
+Definition same_obj (a b : robj) : Prop :=
+  oclosed a = oclosed b /\ oval a = oval b /\ orun a = orun b /\ ocanc a = ocanc b.
+
+Lemma mem_stable s id e p : inv1 w par s -> inv2 s -> id < nthr s -> step_local w s id = Some e ->
+  let s' := apply_eff s id e p in
+  (forall k o, tmap s k = TRes o -> tmap s' k = TRes o) /\
+  (forall k o, tmap s k = TRes o -> oclosed (objs s o) = true -> same_obj (objs s' o) (objs s o)) /\
+  (forall k o, tmap s k = TRes o -> oclosed (objs s o) = false ->
+     same_obj (objs s' o) (objs s o) \/
+     (tpc (thr s id) = PClose MDone /\ tkey (thr s id) = Some k /\ tobj (thr s id) = o /\ oclosed (objs s' o) = true)) /\
+  (forall k o, tmap s' k = TRes o ->
+     tmap s k = TRes o \/ (tpc (thr s id) = RCas /\ tkey (thr s id) = Some k /\ o = nobj s /\
+                            (forall o', tmap s k <> TRes o') /\ objs s' o = new_obj)) /\
+  nobj s <= nobj s' /\ inp s' = inp s /\ roots s' = roots s /\
+  (forall k o, tmap s k = TRes o -> ocyc (objs s o) <> None -> ocyc (objs s' o) <> None \/ oclosed (objs s' o) = true).
+Proof.
+  intros Hi Hj Hid Hl. pose proof (j_thr _ Hj id Hid) as Hu.
+  destruct (step_mem s id e Hi Hid Hl) as [(A & B & C)|[(k0 & A1 & A2 & A3 & A4 & A5 & A6 & A7 & A8)|[(d & A1 & A2 & A3 & A4)|[(o0 & path & A1 & A2 & A3 & A4)|(k0 & A1 & A2 & A3 & A4 & A5 & A6)]]]];
+    cbv zeta; unfold apply_eff; cbn [tmap objs nobj inp roots].
+  - rewrite A, B. repeat split; auto; try (intros; left; repeat split; reflexivity); try (intros; left; assumption).
+  - rewrite A4, A5. rewrite Nat.eqb_refl.
+    assert (Hne : forall k o, tmap s k = TRes o -> k <> k0 /\ o <> nobj s).
+    { intros k o H. split; [intros ->; eapply A3; eassumption|]. pose proof (j_bound _ Hj k o H). lia. }
+    repeat split; auto.
+    all: try solve [intros k o H; try intros Hc; destruct (Hne k o H); rewrite ?upd_other by assumption;
+                    first [assumption|reflexivity|left; repeat split; reflexivity|left; assumption]].
+    all: try solve [destruct (Hne k o H); rewrite ?upd_other by assumption; reflexivity].
+    intros k o H. unfold upd in H. destruct (Nat.eqb k k0) eqn:Ek.
+    + apply Nat.eqb_eq in Ek. subst k. inversion H; subst o. right. rewrite upd_same. repeat split; auto.
+    + left. assumption.
+  - rewrite A2, A3.
+    assert (Hne : forall k o, tmap s k = TRes o -> k <> d) by (intros k o H ->; congruence).
+    repeat split; auto; try (intros; left; repeat split; reflexivity); try (intros; left; assumption).
+    + intros k o H. rewrite upd_other by (eapply Hne; eassumption). assumption.
+    + intros k o H. unfold upd in H. destruct (Nat.eqb k d); [discriminate|]. left. assumption.
+  - rewrite A2, A4.
+    assert (Hsame : forall o, same_obj (upd (objs s) o0
+               {| oclosed := oclosed (objs s o0); oval := oval (objs s o0); orun := orun (objs s o0);
+                  ocanc := ocanc (objs s o0); ocyc := Some path |} o) (objs s o)).
+    { intros o. unfold upd. destruct (Nat.eqb o o0) eqn:E; [apply Nat.eqb_eq in E; subst|]; repeat split; reflexivity. }
+    repeat split; auto; try apply Hsame; try (intros; left; apply Hsame); try (intros; left; assumption).
+    + destruct (Nat.eqb o0 (nobj s)); lia.
+    + intros k o H Hc. left. unfold upd. destruct (Nat.eqb o o0) eqn:E; [cbn; discriminate|assumption].
+  - rewrite A3, A5.
+    destruct (u_leader _ _ Hu k0 A1 ltac:(rewrite A2; reflexivity)) as [L1 L2].
+    repeat split; auto; try (intros; left; assumption).
+    all: try solve [rewrite upd_other; [reflexivity|]; intros ->; congruence].
+    + intros k o H Hc. destruct (Nat.eq_dec o (tobj (thr s id))) as [->|Hno].
+      * right. rewrite upd_same. assert (k = k0) as -> by (eapply (j_inj _ Hj); eassumption). repeat split; auto.
+      * left. rewrite upd_other by assumption. repeat split; reflexivity.
+    + destruct (Nat.eqb (tobj (thr s id)) (nobj s)); lia.
+    + intros k o H Hc. destruct (Nat.eq_dec o (tobj (thr s id))) as [->|Hno].
+      * right. rewrite upd_same. reflexivity.
+      * left. rewrite upd_other by assumption. assumption.
+Qed.
+
+Lemma res_ok_stable s s' run d r :
+  (forall k o, tmap s k = TRes o -> tmap s' k = TRes o) ->
+  (forall k o, tmap s k = TRes o -> oclosed (objs s o) = true -> same_obj (objs s' o) (objs s o)) ->
+  res_ok s run d r -> res_ok s' run d r.
+Proof.
+  intros Ha Hb. destruct r as [v ch| |]; cbn; auto.
+  intros (o & H1 & H2 & H3 & H4). destruct (Hb _ _ H1 H2) as (B1 & B2 & B3 & B4).
+  exists o. rewrite B1, B2, B3. auto.
+Qed.
+Lemma cres_ok_stable s s' d c :
+  (forall k o, tmap s k = TRes o -> tmap s' k = TRes o) ->
+  (forall k o, tmap s k = TRes o -> oclosed (objs s o) = true -> same_obj (objs s' o) (objs s o)) ->
+  cres_ok s d c -> cres_ok s' d c.
+Proof.
+  intros Ha Hb. destruct c as [v| |]; cbn; auto.
+  intros (o & H1 & H2 & H3). destruct (Hb _ _ H1 H2) as (B1 & B2 & B3 & B4).
+  exists o. rewrite B1, B2. auto.
+Qed.
+
+(* the stepping thread: leader / waiter / return facts in the new state *)
+Lemma step_self2a s id e p : inv1 w par s -> inv2 s -> id < nthr s -> step_local w s id = Some e ->
+  let s' := apply_eff s id e p in let t' := e_self e in
+  (forall k, tkey t' = Some k -> leaderpc (tpc t') = true ->
+     tmap s' k = TRes (tobj t') /\ oclosed (objs s' (tobj t')) = false) /\
+  (forall d o, tkey t' = Some d -> waiting_on (tpc t') = Some o ->
+     tmap s' d = TRes o /\ (woken (tpc t') = true -> oclosed (objs s' o) = true)) /\
+  (forall d r, tkey t' = Some d -> tpc t' = PReturn r -> res_ok s' (trun t') d r) /\
+  (forall o, tpc t' = RCycR o -> ocyc (objs s' o) <> None \/ oclosed (objs s' o) = true) /\
+  (forall d, tkey t' = Some d -> tpc t' = RLoad2 -> exists o, tmap s' d = TRes o).
+Proof.
+  intros Hi Hj Hid H. pose proof (i_thr _ _ _ Hi id Hid) as Ht. pose proof (j_thr _ Hj id Hid) as Hu.
+  pose proof (cancelled_false w par s (thr s id) Hi) as Hc.
+  pose proof (t_hold _ _ _ Ht) as Hh. unfold hexp in Hh. pose proof (t_synconly _ _ _ Ht) as Hso.
+  pose proof (t_mode _ _ _ Ht) as Hmo.
+  destruct (step_self_id w s id e H) as (Ia & Ib & Ic & Id & Ie).
+  destruct (step_self_struct w par s id e Hi Hid H) as (Sa & _).
+  cbv zeta. destruct (tkey (thr s id)) as [k|] eqn:Hk.
+  2:{ destruct (Sa eq_refl) as (Q1 & Q2 & Q3). rewrite Ib.
+      repeat split; try (intros; discriminate). intros o Ho. rewrite Ho in Q1. discriminate. }
+  pose proof (u_leader _ _ Hu k Hk) as Ul. pose proof (fun o => u_waiter _ _ Hu k o Hk) as Uw.
+  pose proof (fun r => u_return _ _ Hu k r Hk) as Ur.
+  pose proof (u_cycr _ _ Hu) as Uc. pose proof (u_load2 _ _ Hu k Hk) as U2.
+  rewrite Ib. clear Ia Ib Ic Id Ie Sa.
+  local_cases H; rewrite ?Epc in *; cbn [hpc] in Hh;
+    rewrite ?after_resolve_nc by assumption;
+    rewrite ?do_release_hold by (rewrite Hh; first [reflexivity | cbn; apply Hso; reflexivity]);
+    unfold apply_eff;
+    cbn [e_self e_tmap e_obj E Esem tmap objs set_pc set_pc_hold set_pc_slots set_pc_obj set_pc_pub leave_resolve
+         tpc tkey tobj trun leaderpc waiting_on woken] in *.
+  all: try (specialize (Hmo _ (or_intror eq_refl)); discriminate).
+  all: try match goal with Hb : wfix w && cancelled _ _ = true |- _ =>
+                rewrite Hc, andb_false_r in Hb; discriminate end.
+  all: repeat split; try (intros; discriminate); try (intros; congruence).
+  all: intros.
+  all: repeat match goal with Hx : Some _ = Some _ |- _ => inversion Hx; clear Hx; subst end.
+  all: repeat match goal with Hx : PReturn _ = PReturn _ |- _ => inversion Hx; clear Hx; subst end.
+  all: repeat match goal with Hx : RCycR _ = RCycR _ |- _ => inversion Hx; clear Hx; subst end.
+  all: try solve [apply (Ul eq_refl)].
+  all: try solve [apply (Uw _ eq_refl)].
+  all: try solve [apply (proj2 (Uw _ eq_refl)); reflexivity].
+  all: try solve [rewrite upd_same; reflexivity].
+  all: try assumption.
+  all: cbn [res_ok val_of]; try exact I; cbn [tmap objs].
+  all: try solve [destruct (U2 eq_refl) as [o' Ho']; congruence].
+  all: try solve [eexists; eassumption].
+  all: try solve [left; rewrite upd_same; cbn; discriminate].
+  all: try solve [rewrite Hc, orb_false_r in *; assumption].
+  all: try solve [destruct (Uw _ eq_refl) as [W1 W2]; specialize (W2 eq_refl); congruence].
+  all: try solve [eexists; cbn [tmap objs]; repeat split; try eassumption; reflexivity].
+  - destruct (Uc _ eq_refl) as [F|C]; [congruence|]. exists o. repeat split; try assumption. apply (Uw _ eq_refl).
+  - destruct (Uw _ eq_refl) as [W1 W2]. specialize (W2 eq_refl).
+    match goal with Hx : tmap s d = TRes ?o1 |- _ => assert (o1 = o) by congruence; subst end.
+    exists o. repeat split; assumption.
+  - destruct (Ul eq_refl) as [L1 L2]. rewrite upd_other; [assumption|]. intros ->. congruence.
+  - destruct (Ul eq_refl) as [L1 L2]. exists (tobj (thr s id)). rewrite upd_same. cbn.
+    rewrite Nat.eqb_refl. repeat split; auto.
+Qed.
+
+Lemma step_self2b s id e p : inv1 w par s -> inv2 s -> id < nthr s -> step_local w s id = Some e ->
+  let s' := apply_eff s id e p in let t' := e_self e in let gs := groups w s id in
+  (forall grp i d r, cg (tpc t') (tkey t') gs = Some grp -> nth_error grp i = Some d ->
+     nth_error (tslots t') i = Some (Some r) -> res_ok s' (trun t') d r) /\
+  (forall g, ai (tpc t') gs = Some g -> Forall2 (cres_ok s') (concat (firstn g gs)) (tacc t')) /\
+  tcanc t' = false /\
+  (forall g, tpc t' = PBody g -> g <= length gs) /\
+  (forall i, i < length (tslots t') -> filled_from (tpc t') i -> nth_error (tslots t') i <> Some None) /\
+  (acc0pc (tpc t') = true -> tacc t' = []).
+Proof.
+  intros Hi Hj Hid H. pose proof (i_thr _ _ _ Hi id Hid) as Ht. pose proof (j_thr _ Hj id Hid) as Hu.
+  destruct (mem_stable s id e p Hi Hj Hid H) as (Ma & Mb & _).
+  pose proof (cancelled_false w par s (thr s id) Hi) as Hc.
+  pose proof (t_hold _ _ _ Ht) as Hh. unfold hexp in Hh. pose proof (t_synconly _ _ _ Ht) as Hso.
+  pose proof (t_mode _ _ _ Ht) as Hmo.
+  set (s' := apply_eff s id e p) in *.
+  assert (Us : forall grp i d r, cg (tpc (thr s id)) (tkey (thr s id)) (groups w s id) = Some grp ->
+             nth_error grp i = Some d -> nth_error (tslots (thr s id)) i = Some (Some r) ->
+             res_ok s' (trun (thr s id)) d r).
+  { intros grp i d r A B C. eapply res_ok_stable; [exact Ma|exact Mb|]. eapply (u_slots _ _ Hu); eassumption. }
+  assert (Ua : forall g, ai (tpc (thr s id)) (groups w s id) = Some g ->
+             Forall2 (cres_ok s') (concat (firstn g (groups w s id))) (tacc (thr s id))).
+  { intros g A. eapply Forall2_imp; [|eapply (u_acc _ _ Hu); exact A].
+    intros d c. apply cres_ok_stable; assumption. }
+  pose proof (u_canc _ _ Hu) as Ucn. pose proof (u_bodyg _ _ Hu) as Ub. pose proof (u_filled _ _ Hu) as Uf.
+  pose proof (t_slots _ _ _ Ht) as Tsl. pose proof (t_start _ _ _ Ht) as Tst. pose proof (t_edges _ _ _ Ht) as Ted.
+  destruct (step_self_id w s id e H) as (Ia & Ib & Ic & Id & Ie).
+  pose proof (u_acc0 _ _ Hu) as U0.
+  assert (Hgl : tkey (thr s id) = None -> length (groups w s id) <= 1).
+  { intros Hk. unfold groups. rewrite Hk. destruct (find _ (roots s)); cbn; lia. }
+  cbv zeta. rewrite Ia, Ib. clear Ia Ib Ic Id Ie. clearbody s'.
+  local_cases H; rewrite ?Epc in *; cbn [hpc] in Hh;
+    rewrite ?after_resolve_nc by assumption;
+    rewrite ?do_release_hold by (rewrite Hh; first [reflexivity | cbn; apply Hso; reflexivity]);
+    cbn [e_self E Esem set_pc set_pc_hold set_pc_slots set_pc_obj set_pc_pub leave_resolve
+         tpc tslots tacc tcanc cg ai filled_from rpc] in *.
+  all: try (specialize (Hmo _ (or_intror eq_refl)); discriminate).
+  all: try match goal with Hb : panics_at _ _ _ _ = true |- _ => rewrite (panics_at_false w Hnp) in Hb; discriminate end.
+  all: repeat split; try assumption; try (intros; discriminate); try (intros; contradiction).
+  all: try solve [intros g' Hg'; inversion Hg'; subst; rewrite (U0 eq_refl); constructor].
+  all: try solve [intros g' Hg'; inversion Hg'; subst; lia].
+  all: try solve [intros g' Hg'; inversion Hg'; subst;
+                  match goal with Hn : nth_error _ ?g = Some _ |- _ => apply nth_error_Some; congruence end].
+  all: try solve [intros; apply U0; reflexivity].
+  all: try solve [intros g' Hg'; inversion Hg'; subst; destruct (Tsl _ eq_refl) as (grp' & Hg1 & Hg2);
+                  apply nth_error_Some; congruence].
+  - (* fresh slots *)
+    intros grp i d r _ _ Hn. exfalso. destruct (le_lt_dec (length l) i) as [Hle|Hlt].
+    + assert (nth_error (repeat (@None dres) (length l)) i = None) as E by (apply nth_error_None; rewrite repeat_length; lia).
+      congruence.
+    + rewrite nth_error_repeat in Hn by assumption. discriminate.
+  - (* the root leaves Execute: its slots are those of its only Resolve call *)
+    destruct (tkey (thr s id)) as [k|] eqn:Hk; [intros; discriminate|].
+    apply nth_error_None in Heqo. specialize (Ub _ eq_refl). specialize (Hgl eq_refl).
+    destruct g as [|[|g]]; try lia.
+    + intros grp i d r Hg. assert (length (groups w s id) = 0) by lia.
+      destruct (groups w s id); [discriminate|cbn in *; lia].
+    + intros grp i d r Hg. apply Us. assumption.
+  - intros g0 Hg0. inversion Hg0; subst g0. apply nth_error_None in Heqo. specialize (Ub _ eq_refl).
+    assert (g = length (groups w s id)) as <- by lia. apply Ua. reflexivity.
+  - intros i0 Hi0 Hle. destruct (Tsl _ eq_refl) as (grp' & Hg1 & Hg2). rewrite Heqo in Hg1. inversion Hg1; subst. lia.
+  - intros g0 Hg0. inversion Hg0; subst g0. destruct (Tsl _ eq_refl) as (grp' & Hg1 & Hg2).
+    eapply acc_extend; try eassumption; [apply Ua; reflexivity| |intros i d r Hd Hr; eapply Us; eassumption].
+    intros i Hi'. apply Uf; [assumption|lia].
+  - intros grp i d0 r Hg Hd Hn. destruct (Nat.eq_dec i n) as [->|Hin].
+    + destruct (Tst _ _ _ eq_refl) as [_ Hlen]. rewrite set_slot_same in Hn by lia. inversion Hn; subst r.
+      rewrite Heqo in Hg. inversion Hg; subst grp. rewrite Heqo0 in Hd. inversion Hd; subst d0.
+      eapply res_ok_stable; [exact Ma|exact Mb|].
+      destruct (tmap s k) as [| |o] eqn:Etm; try discriminate. destruct (oclosed (objs s o)) eqn:Ecl; [|discriminate].
+      inversion Heqo1; subst d. cbn. exists o. repeat split; auto.
+    + rewrite set_slot_other in Hn by assumption. eapply Us; eassumption.
+  - intros i Hi' Hfl. rewrite set_slot_length in Hi'. destruct nw; [contradiction|].
+    destruct (Nat.eq_dec i n) as [->|Hin].
+    + rewrite set_slot_same by assumption. discriminate.
+    + rewrite set_slot_other by assumption. apply Uf; [assumption|lia].
+  - intros g0 Hg0. inversion Hg0; subst g0. destruct (Tsl _ eq_refl) as (grp' & Hg1 & Hg2).
+    eapply acc_extend; try eassumption; [apply Ua; reflexivity| |intros i d' r Hd Hr; eapply Us; eassumption].
+    intros i Hi'. destruct i as [|i]; [rewrite Heqo; discriminate|]. apply Uf; [assumption|lia].
+  - intros i Hi' _ Hn. eapply slots_full_nth; eassumption.
+  - intros g0 Hg0. inversion Hg0; subst g0. destruct (Tsl _ eq_refl) as (grp' & Hg1 & Hg2).
+    eapply acc_extend; try eassumption; [apply Ua; reflexivity| |intros i d' r Hd Hr; eapply Us; eassumption].
+    intros i Hi'. apply Uf; [assumption|exact I].
+Qed.
+
+(* how leadership of the stepping thread changes *)
+Lemma leader_step s id e : inv1 w par s -> id < nthr s -> step_local w s id = Some e ->
+  (leaderpc (tpc (thr s id)) = true -> (forall m, tpc (thr s id) <> PClose m) ->
+     tkey (thr s id) <> None -> leaderpc (tpc (e_self e)) = true /\ tobj (e_self e) = tobj (thr s id)) /\
+  (leaderpc (tpc (e_self e)) = true -> leaderpc (tpc (thr s id)) = true \/ tpc (thr s id) = RCas).
+Proof.
+  intros Hi Hid H. pose proof (i_thr _ _ _ Hi id Hid) as Ht.
+  pose proof (cancelled_false w par s (thr s id) Hi) as Hc.
+  pose proof (t_hold _ _ _ Ht) as Hh. unfold hexp in Hh. pose proof (t_synconly _ _ _ Ht) as Hso.
+  local_cases H; rewrite ?Epc in *; cbn [hpc] in Hh;
+    rewrite ?after_resolve_nc by assumption;
+    rewrite ?do_release_hold by (rewrite Hh; first [reflexivity | cbn; apply Hso; reflexivity]);
+    cbn; split; intros; try discriminate; try (split; reflexivity); auto; try congruence.
+  all: try (exfalso; eapply H0; reflexivity).
+Qed.
+
+
+Lemma thr_after s id e p : inv1 w par s -> id < nthr s -> step_local w s id = Some e ->
+  let s' := apply_eff s id e p in
+  thr s' id = e_self e /\
+  (forall x, x < nthr s -> x <> id ->
+     thr s' x = thr s x \/
+     (exists hi r h, tpc (thr s id) = PReturn r /\ thost (thr s id) = Some (x, hi) /\
+                     thr s' x = slot_write (thr s x) hi r h)) /\
+  (nthr s' = nthr s \/
+   (nthr s' = S (nthr s) /\ exists j d sy h, thr s' (nthr s) = child_of s id j d sy h)).
+Proof.
+  intros Hi Hid Hl. cbv zeta.
+  destruct (step_kinds w s id e Hl) as [[A B]|[(r & hp & hi & A1 & A2 & A3 & A4 & A5 & A6 & _)|(g & j & nw & grp & d & A1 & A2 & A3 & A4 & A5 & A6 & A7 & _)]];
+    unfold apply_eff; cbn [thr nthr].
+  - rewrite A, B. cbn [apply_slot]. split; [apply upd_same|]. split; [|left; reflexivity].
+    intros x Hx Hxi. left. apply upd_other. assumption.
+  - rewrite A3, A4. cbn [apply_slot].
+    pose proof (i_thr _ _ _ Hi id Hid) as Htid.
+    assert (Hk : tkey (thr s id) <> None).
+    { intros Hk. destruct (t_root _ _ _ Htid Hk) as (_ & _ & _ & _ & R & _). eapply R; eassumption. }
+    destruct (t_host _ _ _ Htid Hk ltac:(rewrite A1; reflexivity)) as [(hp' & hi' & g & grp & d & H1 & H2 & _)].
+    rewrite A2 in H1. inversion H1; subst hp' hi'.
+    split; [rewrite upd_other by lia; apply upd_same|]. split; [|left; reflexivity].
+    intros x Hx Hxi. destruct (Nat.eq_dec x hp) as [->|Hxh].
+    + right. exists hi, r, (if tsync (thr s id) then Some (thold (thr s id)) else None).
+      repeat split; try assumption. rewrite upd_same. rewrite upd_other by lia. reflexivity.
+    + left. rewrite !upd_other by assumption. reflexivity.
+  - rewrite A4, A5. cbn [apply_slot]. split; [rewrite upd_other by lia; apply upd_same|]. split.
+    + intros x Hx Hxi. left. rewrite !upd_other by lia. reflexivity.
+    + right. split; [reflexivity|]. do 4 eexists. apply upd_same.
+Qed.
+
+
+Lemma inv2_step s id s1 : inv1 w par s -> inv2 s -> step w s id = Some s1 -> inv2 s1.
+Proof.
+  intros Hi Hj H. destruct (step_spec _ _ _ _ H) as (Hid & e & p & Hl & -> & Hp).
+  set (s' := apply_eff s id e p).
+  destruct (thr_after s id e p Hi Hid Hl) as (Tself & Toth & Tn). fold s' in Tself, Toth, Tn.
+  destruct (mem_stable s id e p Hi Hj Hid Hl) as (Ma & Mb & Mc & Md & Mn & Minp & Mroots & Mcyc).
+  fold s' in Ma, Mb, Mc, Md, Mn, Minp, Mroots, Mcyc.
+  destruct (step_self2a s id e p Hi Hj Hid Hl) as (Sa1 & Sa2 & Sa3 & Sa4 & Sa5). fold s' in Sa1, Sa2, Sa3, Sa4, Sa5.
+  destruct (step_self2b s id e p Hi Hj Hid Hl) as (Sb1 & Sb2 & Sb3 & Sb4 & Sb5 & Sb6). fold s' in Sb1, Sb2.
+  destruct (step_self_id w s id e Hl) as (Ia & Ib & Ic & Id & Ie).
+  destruct (leader_step s id e Hi Hid Hl) as (L1 & L2).
+  pose proof (i_thr _ _ _ Hi id Hid) as Htid. pose proof (j_thr _ Hj id Hid) as Huid.
+  assert (Hkey : forall x, x < nthr s -> tkey (thr s' x) = tkey (thr s x)).
+  { intros x Hx. destruct (Nat.eq_dec x id) as [->|Hxi]; [rewrite Tself; assumption|].
+    destruct (Toth x Hx Hxi) as [->|(hi & r & h & _ & _ & ->)]; reflexivity. }
+  assert (Hgr : forall x, x < nthr s -> groups w s' x = groups w s x) by (intros x Hx; apply groups_eq; auto).
+  assert (Hpco : forall x, x < nthr s -> x <> id -> tpc (thr s' x) = tpc (thr s x) /\ tobj (thr s' x) = tobj (thr s x) /\
+                  trun (thr s' x) = trun (thr s x) /\ tacc (thr s' x) = tacc (thr s x) /\ tcanc (thr s' x) = tcanc (thr s x)).
+  { intros x Hx Hxi. destruct (Toth x Hx Hxi) as [->|(hi & r & h & _ & _ & ->)]; repeat split; reflexivity. }
+  assert (Hnth : nthr s <= nthr s') by (destruct Tn as [->|[-> _]]; lia).
+  (* a thread that is neither the stepping one nor new *)
+  assert (Hother : forall x, x < nthr s -> x <> id -> thread2 s' x).
+  { intros x Hx Hxi. pose proof (j_thr _ Hj x Hx) as Hu. pose proof (i_thr _ _ _ Hi x Hx) as Htx.
+    destruct (Hpco x Hx Hxi) as (P1 & P2 & P3 & P4 & P5).
+    assert (Hres : forall d r, res_ok s (trun (thr s x)) d r -> res_ok s' (trun (thr s x)) d r)
+      by (intros d r; apply res_ok_stable; assumption).
+    constructor; unfold cur_group, acc_index; rewrite ?Hkey, ?Hgr, ?P1, ?P2, ?P3, ?P4, ?P5 by assumption;
+      try apply Hu.
+    - intros k Hk Hlp. destruct (u_leader _ _ Hu k Hk Hlp) as [A B]. split; [apply Ma; assumption|].
+      destruct (Mc _ _ A B) as [(C1 & _)|(C1 & C2 & C3 & C4)]; [congruence|].
+      exfalso. apply Hxi. apply (j_uniq _ Hj x id k); try assumption. rewrite C1. reflexivity.
+    - intros d o Hk Hw. destruct (u_waiter _ _ Hu d o Hk Hw) as [A B]. split; [apply Ma; assumption|].
+      intros Hwk. specialize (B Hwk). destruct (Mb _ _ A B) as (C1 & _). congruence.
+    - intros d r Hk Hr. apply Hres. eapply (u_return _ _ Hu); eassumption.
+    - intros grp i d r Hg Hd Hn.
+      destruct (Toth x Hx Hxi) as [E|(hi & r0 & h & Q1 & Q2 & E)]; rewrite E in Hn.
+      + apply Hres. eapply (u_slots _ _ Hu); eassumption.
+      + cbn [slot_write tslots] in Hn. destruct (Nat.eq_dec i hi) as [->|Hih].
+        * (* the slot just written: the value the callee returned *)
+          assert (Hk : tkey (thr s id) <> None).
+          { intros Hk. destruct (t_root _ _ _ Htid Hk) as (_ & _ & _ & _ & R & _). eapply R; eassumption. }
+          destruct (t_host _ _ _ Htid Hk ltac:(rewrite Q1; reflexivity)) as [(hp' & hi' & g & grp' & d' & H1 & H2 & H3 & H4 & H5 & H6 & H7 & H8 & H9)].
+          rewrite Q2 in H1. inversion H1; subst hp' hi'.
+          rewrite set_slot_same in Hn by (apply nth_error_Some; congruence). inversion Hn; subst r0.
+          assert (grp' = grp /\ d' = d) as [-> ->].
+          { unfold cur_group in Hg. clear - Hg Hd H5 H6 H9.
+            assert (cg (tpc (thr s x)) (tkey (thr s x)) (groups w s x) = Some grp') as Hg'.
+            { destruct (tsync (thr s id)); [destruct H9 as [_ [nw E]]; rewrite E; exact H5|].
+              destruct H9 as [_ E]. destruct (tpc (thr s x)); cbn in E; try contradiction; cbn.
+              - destruct E as (-> & _). exact H5. - destruct E as (-> & _). exact H5.
+              - subst. exact H5. - subst. exact H5. }
+            rewrite Hg in Hg'. inversion Hg'; subst. split; [reflexivity|congruence]. }
+          rewrite <- H3. eapply res_ok_stable; [exact Ma|exact Mb|]. eapply (u_return _ _ Huid); eassumption.
+        * rewrite set_slot_other in Hn by assumption. apply Hres. eapply (u_slots _ _ Hu); eassumption.
+    - intros g Hg. eapply Forall2_imp; [|eapply (u_acc _ _ Hu); exact Hg]. intros d c. apply cres_ok_stable; assumption.
+    - intros o Ho. assert (Hk : tkey (thr s x) <> None).
+      { intros Hk. destruct (t_root _ _ _ Htx Hk) as (_ & _ & R & _). rewrite Ho in R. discriminate. }
+      destruct (tkey (thr s x)) as [d|] eqn:Ek; [|congruence].
+      destruct (u_waiter _ _ Hu d o eq_refl ltac:(rewrite Ho; reflexivity)) as [A _].
+      destruct (u_cycr _ _ Hu o Ho) as [C|C].
+      + apply (Mcyc _ _ A C).
+      + right. destruct (Mb _ _ A C) as (C1 & _). congruence.
+    - intros d Hk Hpc2. destruct (u_load2 _ _ Hu d Hk Hpc2) as (o & A). exists o. apply Ma. assumption.
+    - intros i Hi' Hf. destruct (Toth x Hx Hxi) as [E|(hi & r0 & h & Q1 & Q2 & E)]; rewrite E in *.
+      + apply (u_filled _ _ Hu); assumption.
+      + cbn [slot_write tslots] in *. rewrite set_slot_length in Hi'. destruct (Nat.eq_dec i hi) as [->|Hih].
+        * rewrite set_slot_same by assumption. discriminate.
+        * rewrite set_slot_other by assumption. apply (u_filled _ _ Hu); assumption. }
+  constructor.
+  - intros x Hx. destruct (le_lt_dec (nthr s) x) as [Hge|Hlt].
+    + (* the new thread *)
+      destruct Tn as [E|(E & j & d & sy & h & Hc)]; [lia|]. assert (x = nthr s) as -> by lia.
+      constructor; unfold cur_group, acc_index; rewrite Hc; unfold child_of; cbn; try discriminate; try reflexivity;
+        try (intros; discriminate); try (intros; lia).
+      * intros. constructor.
+    + destruct (Nat.eq_dec x id) as [->|Hxi]; [|apply Hother; assumption].
+      constructor; unfold cur_group, acc_index; rewrite ?Tself, ?Hgr by assumption; try assumption.
+  - intros k o Hk. destruct (Md _ _ Hk) as [A|(_ & _ & -> & _)]; [pose proof (j_bound _ Hj _ _ A)|]; lia.
+  - intros k o Hk Hcl. destruct (Md _ _ Hk) as [A|(A1 & A2 & A3 & A4 & A5)].
+    + assert (Hcl0 : oclosed (objs s o) = false).
+      { destruct (oclosed (objs s o)) eqn:E; [|reflexivity]. destruct (Mb _ _ A E) as (C1 & _). congruence. }
+      destruct (j_leader _ Hj _ _ A Hcl0) as (l & Hl1 & Hl2 & Hl3 & Hl4).
+      exists l. split; [lia|]. destruct (Nat.eq_dec l id) as [->|Hli].
+      * rewrite Tself, Ib. split; [assumption|].
+        assert (Hnc : forall m, tpc (thr s id) <> PClose m).
+        { intros m Hm. destruct (Mc _ _ A Hcl0) as [(C1 & _)|(_ & _ & _ & C)]; [|congruence].
+          pose proof (t_mode _ _ _ Htid m (or_intror Hm)) as ->.
+          destruct (step_mem s id e Hi Hid Hl) as [(B1 & B2 & _)|[(k0 & _ & B & _)|[(d & _ & _ & B & _)|[(o0 & path & B & _)|(k0 & B1 & B2 & B3 & B4 & B5 & B6)]]]]; try congruence.
+          - unfold s', apply_eff in Hcl. cbn [objs] in Hcl. rewrite B2 in Hcl. congruence.
+          - unfold s', apply_eff in Hcl. cbn [objs] in Hcl. rewrite B5, Hl4, upd_same in Hcl. discriminate. }
+        destruct (L1 Hl3 Hnc ltac:(congruence)) as [Q1 Q2]. split; [assumption|congruence].
+      * destruct (Hpco l Hl1 Hli) as (P1 & P2 & _). rewrite Hkey, P1, P2 by assumption. auto.
+    + exists id. rewrite Tself, Ib. split; [lia|]. split; [assumption|].
+      destruct (step_mem s id e Hi Hid Hl) as [(B1 & B2 & _)|[(k0 & B1 & B2 & B3 & B4 & B5 & B6 & B7 & B8)|[(d & _ & _ & B & _)|[(o0 & path & B & _)|(k0 & B1 & B2 & _)]]]]; try congruence.
+      split; [assumption|congruence].
+  - intros k. destruct (step_mem s id e Hi Hid Hl) as [(B1 & B2 & B3)|[(k0 & B1 & B2 & B3 & B4 & B5 & B6 & B7 & B8)|[(d & B0 & B1 & B2 & B3)|[(o0 & path & B0 & B1 & B3 & B2)|(k0 & B0 & B00 & B1 & B3 & B2 & _)]]]];
+      unfold s', apply_eff; cbn [nexec tmap]; rewrite ?B1, ?B3, ?B4, ?B6; try apply (j_nexec _ Hj).
+    + unfold upd. destruct (Nat.eqb k k0) eqn:Ek.
+      * apply Nat.eqb_eq in Ek. subst k. rewrite (j_nexec _ Hj k0). destruct (tmap s k0) eqn:Et; try reflexivity. exfalso. eapply B3; reflexivity.
+      * apply (j_nexec _ Hj).
+    + unfold upd. destruct (Nat.eqb k d) eqn:Ek.
+      * apply Nat.eqb_eq in Ek. subst k. rewrite (j_nexec _ Hj d), B0. reflexivity.
+      * apply (j_nexec _ Hj).
+  - intros k o Hk Hcl. destruct (Md _ _ Hk) as [A|(A1 & A2 & A3 & A4 & A5)].
+    + destruct (oclosed (objs s o)) eqn:E.
+      * destruct (Mb _ _ A E) as (_ & _ & _ & C4). rewrite C4. apply (j_ocanc _ Hj _ _ A E).
+      * destruct (Mc _ _ A E) as [(C1 & _)|(C1 & C2 & C3 & C4)]; [congruence|].
+        destruct (step_mem s id e Hi Hid Hl) as [(B1 & B2 & _)|[(k0 & _ & B & _)|[(d & _ & _ & B & _)|[(o0 & path & B & _)|(k0 & B1 & B2 & B3 & B4 & B5 & B6)]]]]; try congruence.
+        unfold s', apply_eff. cbn [objs]. rewrite B5, <- C3, upd_same. cbn. apply (u_canc _ _ Huid).
+    + rewrite A5 in Hcl. discriminate.
+  - intros k k' o Hk Hk'. destruct (Md _ _ Hk) as [A|(A1 & A2 & A3 & A4 & A5)]; destruct (Md _ _ Hk') as [A'|(A1' & A2' & A3' & A4' & A5')].
+    + eapply (j_inj _ Hj); eassumption.
+    + pose proof (j_bound _ Hj _ _ A). lia.
+    + pose proof (j_bound _ Hj _ _ A'). lia.
+    + congruence.
+  - intros a b k Ha Hb Hka Hkb Hla Hlb.
+    assert (Hnew : forall x, x < nthr s' -> leaderpc (tpc (thr s' x)) = true -> x < nthr s).
+    { intros x Hx Hl'. destruct (le_lt_dec (nthr s) x) as [Hge|]; [|assumption].
+      destruct Tn as [E|(E & j & d & sy & h & Hc)]; [lia|]. assert (x = nthr s) as -> by lia.
+      rewrite Hc in Hl'. discriminate. }
+    pose proof (Hnew a Ha Hla) as Ha'. pose proof (Hnew b Hb Hlb) as Hb'.
+    rewrite Hkey in Hka, Hkb by assumption.
+    assert (Hold : forall x, x < nthr s -> x <> id -> leaderpc (tpc (thr s' x)) = true -> leaderpc (tpc (thr s x)) = true).
+    { intros x Hx Hxi Hl'. destruct (Hpco x Hx Hxi) as (P1 & _). congruence. }
+    (* a thread that wins the CAS now is the only leader of its key *)
+    assert (Hwin : forall x, x < nthr s -> tkey (thr s x) = Some k -> leaderpc (tpc (thr s x)) = true ->
+                   tpc (thr s id) = RCas -> tkey (thr s id) = Some k -> leaderpc (tpc (e_self e)) = true -> False).
+    { intros x Hx Hkx Hlx Hcas Hkid Hle. destruct (u_leader _ _ (j_thr _ Hj x Hx) k Hkx Hlx) as [A _].
+      destruct (step_mem s id e Hi Hid Hl) as [(B1 & B2 & B3)|[(k0 & B1 & B2 & B3 & _)|[(d & _ & _ & _ & _)|[(o0 & path & B & _)|(k0 & B1 & B2 & _)]]]]; try congruence.
+      - clear - Hl Hcas Hle A Hkid B1. unfold step_local in Hl. cbv zeta in Hl. rewrite Hcas, Hkid, A in Hl.
+        inversion Hl; subst e. cbn in Hle. discriminate.
+      - assert (k0 = k) as -> by congruence. eapply B3. eassumption. }
+    destruct (Nat.eq_dec a id) as [->|Hai]; destruct (Nat.eq_dec b id) as [->|Hbi]; try reflexivity.
+    + rewrite Tself in Hla. exfalso. destruct (L2 Hla) as [Q|Q].
+      * apply Hbi. apply (j_uniq _ Hj b id k); auto.
+      * eapply (Hwin b); eauto.
+    + rewrite Tself in Hlb. exfalso. destruct (L2 Hlb) as [Q|Q].
+      * apply Hai. apply (j_uniq _ Hj a id k); auto.
+      * eapply (Hwin a); eauto.
+    + apply (j_uniq _ Hj a b k); auto.
+Qed.
+
 End Inv2.
